@@ -353,6 +353,8 @@ func mode2Perm(mode uint8) uint32 {
 		perm = DMWRITE
 	case ORDWR:
 		perm = DMREAD | DMWRITE
+	case OEXEC:
+		perm = DMEXEC
 	}
 
 	if (mode & OTRUNC) != 0 {
